@@ -86,6 +86,18 @@ def forE (l : List β) (init : σ) (f : σ → β → σ × Option Err) : σ × 
     | (s, none) => forE xs s f
     | (s, some e) => (s, some e)
 
+/-- `while True: body` — `f st` is one pass: the new loop state and `none` (next pass), `some none` (`break`) or
+    `some (some e)` (the body raised `e`).  `fuel` bounds the number of passes; a loop still running when it is used up ends in
+    the error `nontermination` (the Python loop would not return) -/
+def whileE (fuel : Nat) (init : σ) (f : σ → σ × Option (Option Err)) : σ × Option Err :=
+  match fuel with
+  | 0 => (init, some (.other "nontermination"))
+  | n + 1 =>
+    match f init with
+    | (s, none) => whileE n s f
+    | (s, some none) => (s, none)
+    | (s, some (some e)) => (s, some e)
+
 /-- `[f(x) for x in l]` where `f` may raise: elements are evaluated in order, the first exception wins -/
 def mapE (f : β → Except Err γ) : List β → Except Err (List γ)
   | [] => .ok []
@@ -143,6 +155,27 @@ def strDrop (k : Nat) (s : String) : String := String.ofList (s.toList.drop k)
 
 /-- `s.lower()` (Lean's `String.toLower` maps A–Z only: equal to Python's on ASCII text) -/
 abbrev lower (s : String) : String := s.toLower
+
+/-- Python's reading of an index `i` into a sequence of length `n`: `i` for `0 ≤ i < n`, `n + i` for `-n ≤ i < 0`, else out of
+    range -/
+def normIdx (n : Nat) (i : Int) : Option Nat :=
+  if 0 ≤ i then (if i.toNat < n then some i.toNat else none)
+  else if 0 ≤ i + (n : Int) then some (i + (n : Int)).toNat else none
+
+/-- `A[i, :, k] = v` on a 3-D array `A[i][j][k]` (list of planes, each a list of rows), TOTALISED: nothing is written where an
+    index is out of range (numpy: IndexError); a `v` of length 1 is broadcast; row `j` stays as it is when `v` has no element
+    `j` (numpy: ValueError unless the lengths agree) -/
+def setCol3 {α : Type} (A : List (List (List α))) (i k : Int) (v : List α) : List (List (List α)) :=
+  match normIdx A.length i with
+  | none => A
+  | some i' => A.modify i' (fun plane => plane.zipIdx.map (fun rj =>
+      match normIdx rj.1.length k, (if v.length = 1 then v[0]? else v[rj.2]?) with
+      | some k', some x => rj.1.set k' x
+      | _, _ => rj.1))
+
+/-- `A[:, :, idx]` for an index array `idx` (totalised: a position out of range reads `d`) -/
+def takeLast3 {α : Type} (d : α) (A : List (List (List α))) (idx : List Nat) : List (List (List α)) :=
+  A.map (fun plane => plane.map (fun row => idx.map (fun i => row.getD i d)))
 
 @[simp] theorem caseE_ok {ε β γ : Type} (v : β) (f : ε → γ) (g : β → γ) : caseE (Except.ok v) f g = g v := rfl
 @[simp] theorem caseE_error {ε β γ : Type} (e : ε) (f : ε → γ) (g : β → γ) : caseE (Except.error e : Except ε β) f g = f e := rfl
